@@ -19,9 +19,9 @@ IMPORTS = 'From XV Require Import Base Regex Particle Restrict.'
 
 
 # ------------------------------------------------------------------ (a) content models
-def candidates(rng, base):
+def candidates(rng, base, by_category=False):
     """Candidate restrictions of a base model (structurally related models, both narrower and wider)."""
-    out = []
+    out, cats = [], []
 
     def paths(m, p=()):
         yield p
@@ -48,12 +48,14 @@ def candidates(rng, base):
             n2 = get(c, p)
             n2['mn'], n2['mx'] = mn, mx
             out.append(c)
+            cats.append('occurs')
         if p and node['t'] != 'g':
             parent = get(base, p[:-1])
             if len(parent['ps']) > 1:
                 c = copy.deepcopy(base)
                 del get(c, p[:-1])['ps'][p[-1]]
                 out.append(c)                                   # particle dropped
+                cats.append('dropped')
             if node['t'] == 'e':
                 other = rng.choice([x for x in 'abc' if x != node['n']])
                 for repl in (cm.E(other, (node['mn'], node['mx'])), cm.E(other, (0, 1)),
@@ -64,12 +66,14 @@ def candidates(rng, base):
                     c = copy.deepcopy(base)
                     get(c, p[:-1])['ps'][p[-1]] = repl
                     out.append(c)                               # element renamed / replaced by a group around it
+                    cats.append('element')
             if node['t'] == 'w':
                 for s in cm.leaf_symbols(node):
                     if s in ('a', 'b', 'c'):
                         c = copy.deepcopy(base)
                         get(c, p[:-1])['ps'][p[-1]] = cm.E(s, (node['mn'], node['mx']))
                         out.append(c)                           # wildcard -> element
+                        cats.append('wildcard')
                         break
         if node['t'] == 'g':
             if node['k'] == 'choice' and len(node['ps']) > 1:
@@ -78,22 +82,31 @@ def candidates(rng, base):
                     n2 = get(c, p)
                     n2['ps'] = [n2['ps'][i]]
                     out.append(c)                               # branch chosen
+                    cats.append('branch')
             c = copy.deepcopy(base)
             n2 = get(c, p)
             n2['k'] = 'choice' if node['k'] == 'seq' else 'seq'
             out.append(c)                                       # kind changed
+            cats.append('kind')
             for i in range(len(node['ps'])):
                 c = copy.deepcopy(base)
                 n2 = get(c, p)
                 n2['k'] = 'choice' if node['k'] == 'seq' else 'seq'
                 n2['ps'] = [n2['ps'][i]]
                 out.append(c)                                   # kind changed, one particle kept
+                cats.append('kind1')
             c = copy.deepcopy(base)
             get(c, p)['ps'].append(cm.E(rng.choice('abc'), rng.choice([(0, 1), (1, 1)])))
             out.append(c)                                       # particle added
+            cats.append('added')
     for c in out:
         for lf in cm.leaves(c):
             lf.pop('pid', None)
+    if by_category:
+        groups = {}
+        for k, c in zip(cats, out):
+            groups.setdefault(k, []).append(c)
+        return groups
     return out
 
 
@@ -597,9 +610,12 @@ def gen(ctx):
     nbase = 40 if q else 500
     for i in range(nbase):
         base = cm.random_model(rng, max_depth=2, max_leaves=4, p_ref=0.0, p_head=0.05, allow_all=False)
-        cands = candidates(rng, base)
         if q:
-            cands = rng.sample(cands, min(len(cands), 9))
+            # a stratified sample: every kind of change is represented for every base model
+            groups = candidates(rng, base, by_category=True)
+            cands = [c for k in sorted(groups) for c in rng.sample(groups[k], min(len(groups[k]), 2))]
+        else:
+            cands = candidates(rng, base)
         for d in cands:
             models.append(make_model_case(base, d))
         if i % 4 == 0:
